@@ -475,18 +475,27 @@ def _load_json(
     if load_order:
         old_reordering = bdd.configure(
             reordering=False)
-    for line in fd:
-        d = _parse_line(line)
-        _store_line(d, bdd, context, cache)
-    roots = context['roots']
-    if hasattr(roots, 'items'):
-        roots = {
-            name: _node_from_int(k, bdd, cache)
-            for name, k in roots.items()}
-    else:
-        roots = [
-            _node_from_int(k, bdd, cache)
-            for k in roots]
+    try:
+        for line in fd:
+            d = _parse_line(line)
+            _store_line(d, bdd, context, cache)
+        roots = context['roots']
+        if hasattr(roots, 'items'):
+            roots = {
+                name: _node_from_int(k, bdd, cache)
+                for name, k in roots.items()}
+        else:
+            roots = [
+                _node_from_int(k, bdd, cache)
+                for k in roots]
+    except BaseException:
+        # release the references that
+        # `_make_node` took for the nodes
+        # that were loaded before the failure
+        for uid in cache:
+            u = _node_from_int(int(uid), bdd, cache)
+            bdd.decref(u, _direct=True)
+        raise
     # rm refs to cached nodes
     for uid in cache:
         u = _node_from_int(int(uid), bdd, cache)
